@@ -53,6 +53,29 @@ def traceFrom (c : Cfg) : Stats → List Hit → List (Bool × Nat)
     let r := stepHit c st h
     (r.2.1, r.2.2) :: traceFrom c r.1 hs
 
+/-! ### every action kind: the subclasses that override the gate -/
+
+inductive Kind | snapshot | log | metric | span
+deriving DecidableEq, Repr
+
+/-- `can_trigger()` of the action context class of kind `k`; `hasProc` = a processor plugin for that kind is active
+    (only metric and span actions look at it) -/
+def checkKind (k : Kind) (hasProc : Bool) (c : Cfg) (st : Stats) (h : Hit) : Bool × Nat :=
+  match k with
+  | .metric => metricCanTrigger hasProc (fun _ => check c st h)
+  | .span => spanCanTrigger hasProc (fun _ => check c st h)
+  | _ => check c st h
+
+def stepHitK (k : Kind) (hasProc : Bool) (c : Cfg) (st : Stats) (h : Hit) : Stats × Bool × Nat :=
+  let r := checkKind k hasProc c st h
+  if r.1 then (fire st h.ts, true, r.2) else (st, false, r.2)
+
+def traceFromK (k : Kind) (hasProc : Bool) (c : Cfg) : Stats → List Hit → List (Bool × Nat)
+  | _, [] => []
+  | st, h :: hs =>
+    let r := stepHitK k hasProc c st h
+    (r.2.1, r.2.2) :: traceFromK k hasProc c r.1 hs
+
 /-! ### the statement's side: when does a condition "evaluate to true" -/
 
 /-- no condition, or a blank one = always -/
